@@ -44,6 +44,9 @@ type mwWorld struct {
 	binding string
 }
 
+// mwOptsHook: further options for the next worlds (options that must not change which responses are accepted)
+var mwOptsHook func(*samlsp.Options)
+
 func (c *Ctx) newWorld(root string, binding string) *mwWorld {
 	k := c.key("sp")
 	opts := samlsp.Options{URL: mustURL(root), Key: k.Key, Certificate: k.Cert,
@@ -53,6 +56,9 @@ func (c *Ctx) newWorld(root string, binding string) *mwWorld {
 			SingleSignOnServices: []saml.Endpoint{{Binding: saml.HTTPRedirectBinding, Location: idpSSOURL}, {Binding: saml.HTTPPostBinding, Location: idpSSOURL}}}}}}
 	saml.MaxIssueDelay = 90 * time.Second
 	saml.MaxClockSkew = 180 * time.Second
+	if mwOptsHook != nil {
+		mwOptsHook(&opts)
+	}
 	m, err := samlsp.New(opts)
 	must(err)
 	m.Binding = binding
